@@ -19,6 +19,9 @@ ENUMS = {'Color': {'base': 'byte', 'syms': {'Red': 1, 'Green': 2, 'Blue': 7}, 'f
 STRUCTS = {
     'Pt': [('x', 'short'), ('y', 'short')],
     'Big': [('l', 'long'), ('u', 'ulong')],
+    'Point': [('x', 'int'), ('y', 'int')],
+    'Tri': [('a', 'int'), ('pts', ('arr', 'Point', 3)), ('tail', 'int'), ('id', 'short')],
+    'Poly': [('pts', ('arr', 'Point', 40)), ('tail', 'int'), ('id', 'short')],
     'Lim': [('b', 'byte'), ('s', 'short'), ('i', 'int'), ('l', 'long'), ('ab', ('arr', 'byte', 2)), ('as', ('arr', 'short', 2)), ('ai', ('arr', 'int', 2)),
             ('al', ('arr', 'long', 2)), ('e', 'Neg'), ('ae', ('arr', 'Neg', 2))],
     'Fix': [('a', ('arr', 'int', 3)), ('name', ('chararr', 6)), ('p', ('arr', 'Pt', 2)), ('e', ('arr', 'Color', 2)),
@@ -35,6 +38,7 @@ TABLES = {
              ('vbig', ('vec', 'Big'), None), ('i', 'int', 0), ('w', 'uint', 0), ('b8', 'byte', 0), ('s16', 'short', 0), ('vb8', ('vec', 'byte'), None),
              ('vs16', ('vec', 'short'), None), ('vi32', ('vec', 'int'), None), ('lim', 'Lim', None), ('vlim', ('vec', 'Lim'), None), ('e', 'Neg', 0),
              ('ve', ('vec', 'Neg'), None), ('full', 'Full', 0), ('vfull', ('vec', 'Full'), None)],
+    'Geo': [('poly', 'Poly', None), ('tri', 'Tri', None), ('vtri', ('vec', 'Tri'), None), ('n', 'int', 0)],
     'Sub': [('id', 'uint', 0), ('tag', 'string', None), ('pt', 'Pt', None)],
     'Root': [('b', 'bool', False), ('i8', 'byte', -3), ('u8', 'ubyte', 0), ('i16', 'short', 0), ('u16', 'ushort', 500),
              ('i32', 'int', 0), ('u32', 'uint', 0), ('i64', 'long', 0), ('u64', 'ulong', 0), ('f32', 'float', 0.0),
@@ -49,7 +53,7 @@ TABLES = {
 REQUIRED = {('Sub', 'tag'), ('Req', 'a'), ('Req', 'b'), ('Req', 'c')}
 UNIONS = {'Any': [('Leaf', 'Leaf'), ('Other', 'Other'), ('Pt', 'Pt'), ('Str', 'string')],
           'Tree': [('Node', 'Node'), ('Leaf', 'Leaf'), ('Other', 'Other')]}   # code = index + 1
-ROOTS = ['Root', 'Leaf', 'Other', 'Sub', 'Rec', 'Node', 'Req', 'Nums', 'Pt', 'Fix']
+ROOTS = ['Root', 'Leaf', 'Other', 'Sub', 'Rec', 'Node', 'Req', 'Nums', 'Geo', 'Pt', 'Fix', 'Tri', 'Poly']
 
 # powers of ten and of two with their neighbours: digit-count boundaries of the integer printers
 _GRID = sorted(set([10 ** k + d for k in range(1, 20) for d in (-1, 0, 1)] + [2 ** k + d for k in (31, 32, 33, 63) for d in (-1, 0, 1)] +
@@ -411,6 +415,12 @@ def run_resilient(h, lines, timeout=900, chunk=4000):
             if done >= len(part): break
             if res and res[-1] == 'HANG' and rc == 98:
                 start = done; continue       # the HANG line is the reply of the request that timed out
+            if rc == 99 and res:
+                # the harness answered the request and then left on purpose (ASan reported a WRITE: memory may be damaged): go on with the next line
+                guard += 1
+                if guard > 200:
+                    out.extend(['CRASH (too many restarts)'] * (len(part) - done)); break
+                start = done; continue
             tail = err[-6000:]
             i = tail.rfind('ERROR: AddressSanitizer')
             if i < 0: i = tail.rfind('runtime error')
@@ -475,3 +485,51 @@ EXPECTED_CFG = {'JCFG_allow_unquoted': 1, 'JCFG_allow_unquoted_list': 0, 'JCFG_a
 
 def hx(bs):
     return bytes(bs).hex() if len(bs) else '-'
+
+
+# ---------------------------------------------------------------------------------------------- a minimal reader for the Geo / Tri / Poly buffers
+# (layout by the FlatBuffers struct rules; independent of flatcc's generated readers): used to check that members FOLLOWING an underfilled
+# fixed length array of structs keep their values and that the padding elements read zero
+_LAYOUT = {'Tri': {'size': 36, 'a': 0, 'pts': (4, 3), 'tail': 28, 'id': 32}, 'Poly': {'size': 328, 'pts': (0, 40), 'tail': 320, 'id': 324}}
+
+
+def read_struct(buf, off, name):
+    L = _LAYOUT[name]
+    if off < 0 or off + L['size'] > len(buf): return None
+    i32 = lambda o: struct.unpack_from('<i', buf, off + o)[0]
+    out = {'tail': i32(L['tail']), 'id': struct.unpack_from('<h', buf, off + L['id'])[0]}
+    if 'a' in L: out['a'] = i32(L['a'])
+    po, n = L['pts']
+    out['pts'] = [(i32(po + 8 * k), i32(po + 8 * k + 4)) for k in range(n)]
+    return out
+
+
+def read_geo(buf, with_size):
+    """{'poly':..., 'tri':..., 'vtri':[...], 'n':...} of a finished Geo buffer (absent fields missing), or None when malformed"""
+    try:
+        base = 4 if with_size else 0
+        pos = base + struct.unpack_from('<I', buf, base)[0]
+        vt = pos - struct.unpack_from('<i', buf, pos)[0]
+        vsize = struct.unpack_from('<H', buf, vt)[0]
+        def fo(k):
+            o = 4 + 2 * k
+            return struct.unpack_from('<H', buf, vt + o)[0] if o + 2 <= vsize else 0
+        out = {}
+        if fo(0): out['poly'] = read_struct(buf, pos + fo(0), 'Poly')
+        if fo(1): out['tri'] = read_struct(buf, pos + fo(1), 'Tri')
+        if fo(2):
+            v = pos + fo(2); v += struct.unpack_from('<I', buf, v)[0]
+            n = struct.unpack_from('<I', buf, v)[0]
+            out['vtri'] = [read_struct(buf, v + 4 + 36 * k, 'Tri') for k in range(n)]
+        if fo(3): out['n'] = struct.unpack_from('<i', buf, pos + fo(3))[0]
+        return out
+    except struct.error:
+        return None
+
+
+def read_struct_root(buf, with_size, name):
+    base = 4 if with_size else 0
+    try:
+        return read_struct(buf, base + struct.unpack_from('<I', buf, base)[0], name)
+    except struct.error:
+        return None
